@@ -6,6 +6,7 @@
   Property theorems only; lemmas live in `Lemmas/UnsyncAdmit.lean`.
 -/
 import MiniMoka.Lemmas.UnsyncAdmit
+import MiniMoka.Lemmas.UnsyncRecency
 import MiniMoka.Lemmas.SketchLaws
 
 namespace MiniMoka
@@ -211,11 +212,37 @@ theorem C12_recency_order {p : Params} (hq : NoQuirks p) {s : UState}
           exact ⟨hres, by rw [hmap k' hne, if_pos hin]⟩
       · rw [hrej hdec, hnew] at he; cases he
 
+/-- **C12, "recency is order of use", on traces.** For every configuration of the current code
+(any capacity incl. none, any weigher, hasher, ttl/tti) and every history — with any number of
+operations between two snapshots — the recency walk accepts the model's trace: at every
+snapshot (all model snapshots are quiescent) the recency order is the one of the previous
+snapshot restricted to the keys still resident and not used since, followed by the keys used
+since (every `insert`, every `get` that returned a value) that are still resident, in order
+of last use. -/
+theorem C12_unsync_recency (p : Params) (hq : NoQuirks p) (hsm : SmallSketch p) (h : List Op) :
+    Spec.recencyC12 .unsync (Unsync.trace p h) = true :=
+  recencyC12_trace sketchLaws hq hsm h
+
+/-- The segment invariant behind `C12_unsync_recency`, on states: if the recency order of `s`
+is `expOrd L0 · M` (survivors of `L0` not in `M`, then the resident keys of `M`), it stays so
+over maintenance and every operation that is not a use, and an `insert k` / a `get k` that
+returns a value replaces `M` by `M` with `k` moved to its end. -/
+theorem C12_recency_segment {p : Params} (hq : NoQuirks p) {s : UState}
+    (hi : Inv Sketch.Good p s) (L0 M : List Nat) (hr : Rec L0 M s) (k v : Nat) :
+    Rec L0 M (maintain p s) ∧ Rec L0 M (invalidate p s k) ∧
+    Rec L0 (useKey M k) (insert p s k v) ∧
+    (∀ v', (get p s k).2 = some v' → Rec L0 (useKey M k) (get p s k).1) ∧
+    ((get p s k).2 = none → Rec L0 M (get p s k).1) :=
+  ⟨hr.maintain hi.inv.struct, hr.of_sublist hi.inv.struct (invalidate_prob_sublist p s k),
+    hr.insert hq hi.inv k v, (hr.get hq hi.inv k).1, (hr.get hq hi.inv k).2⟩
+
 /-- **C12 on traces.** For every configuration of the current code and every history, the C12
-oracle (batch = the code's `EVICTION_BATCH_SIZE`) accepts the model's trace: the admission
-windows of C13, and every window `snap, get/contains_key, snap` taken over capacity with
-nothing expired and at most one batch of residents loses exactly the shortest prefix of the
-recency order that covers the excess (everything, if even that does not suffice). -/
+oracle (batch = the code's `EVICTION_BATCH_SIZE`) accepts the model's trace: the recency walk
+(`C12_unsync_recency`; with no `max_capacity` this is the whole oracle), and with a capacity
+also the admission windows of C13 and every window `snap, get/contains_key, snap` taken over
+capacity with nothing expired and at most one batch of residents, which loses exactly the
+shortest prefix of the recency order that covers the excess (everything, if even that does
+not suffice). -/
 theorem C12_unsync_oracle (p : Params) (hq : NoQuirks p) (hsm : SmallSketch p) (h : List Op) :
     Spec.oracleC12 .unsync p.cap p.ttl p.tti p.weigh Gen.UNSYNC_EVICTION_BATCH_SIZE
       (Unsync.trace p h) = true :=
@@ -290,6 +317,33 @@ resident and takes a more recently used one. -/
 example : Spec.oracleC12 .unsync (some 3) none none (fun _ v => v) EVICTION_BATCH_SIZE
     [(.snap, .snap (snapshot cfgW overW)), (.get 9, .val none),
      (.snap, .snap (snapshot cfgW (runState cfgW {} [.ins 2 1])))] = false := by
+  decide +kernel
+
+/-- Recency walk, several uses between two snapshots: hits, an update, a rejected insert (key 7,
+never looked up), an admitted insert (key 5) that evicts the then-LRU resident, an
+invalidation, a miss and a last hit on key 1 — the model's trace is accepted; the second
+snapshot shows the order `[5, 1]`: no survivor of `[1, 2, 3]` is unused, then the used keys
+still resident in order of last use (uses: 2, 1, 3, 7, 5, 1). -/
+example :
+    Spec.recencyC12 .unsync (Unsync.trace { cap := some 3 }
+      [.ins 1 1, .ins 2 2, .ins 3 3, .get 5, .get 5, .snap,
+       .get 2, .ins 1 11, .get 3, .ins 7 7, .ins 5 5, .inv 3, .get 9, .get 1, .snap,
+       .get 5, .snap]) = true ∧
+    (runState { cap := some 3 } {}
+      [.ins 1 1, .ins 2 2, .ins 3 3, .get 5, .get 5, .snap,
+       .get 2, .ins 1 11, .get 3, .ins 7 7, .ins 5 5, .inv 3, .get 9, .get 1]).prob.map (·.key)
+      = [5, 1] := by
+  decide +kernel
+
+/-- The recency walk is not vacuous: a hand-made trace in which a hit on key 1 is followed by a
+snapshot that still shows 1 as the least recently used resident is rejected. -/
+example : Spec.recencyC12 .unsync
+    [(.snap, .snap (snapshot cfg2 full2)), (.get 1, .val (some 10)),
+     (.snap, .snap (snapshot cfg2 full2))] = false := by
+  decide +kernel
+
+/-- ... while the model's own trace of the same operations is accepted. -/
+example : Spec.recencyC12 .unsync (Unsync.run cfg2 full2 [.snap, .get 1, .snap]) = true := by
   decide +kernel
 
 end Props
